@@ -74,9 +74,10 @@ class Source:
 class StageFn:
     """map / parmap worker function with call log, virtual service times, failure set, concurrency meter."""
 
-    def __init__(self, sim, add, delays=None, fail=None, name='fn', none=None):
+    def __init__(self, sim, add, delays=None, fail=None, name='fn', none=None, ret_exc=None):
         self.sim = sim
         self.add = add
+        self.ret_exc = ret_exc or {}  # {'idx': [..], 'exc': kind}: the function RETURNS (does not raise) an exception object: a value
         self.none = none or {}  # {'idx': [..]}: the function's (legitimate) result for these inputs is None
         self.delays = delays
         self.fail = fail or {}  # {'idx': [..], 'exc': kind}
@@ -100,6 +101,8 @@ class StageFn:
                 _raise(self.fail['exc'], x)
             if self.none and idx_of(x) in self.none['idx']:
                 return None
+            if self.ret_exc and idx_of(x) in self.ret_exc['idx']:
+                return make_exc(self.ret_exc['exc'], x)
             return x + self.add
         finally:
             self.running -= 1
@@ -154,8 +157,12 @@ def reference(sc):
                     else:
                         failed = err
                         break
+                elif st.get('none') and idx_of(x) in st['none']['idx']:
+                    y = None
+                elif st.get('ret_exc') and idx_of(x) in st['ret_exc']['idx']:
+                    y = ['EXC', st['ret_exc']['exc'], x]  # an exception object as an ordinary value: yielded, never raised
                 else:
-                    y = None if (st.get('none') and idx_of(x) in st['none']['idx']) else x + PAR_ADD
+                    y = x + PAR_ADD
                 x = [x_in, y] if st.get('return_x') else y
             elif op == 'buffer':
                 pass
